@@ -45,8 +45,13 @@ Semantic conventions (the same as the hand model's, stated in Model/C06.lean):
   `len(a) == len(b)` (numpy broadcasting is not modelled); `int array / number` yields the list of
   quotients, and ZeroDivisionError stands for numpy's non-finite result + warning when the number is 0
   and the array is not empty; `other` is an object different from `self`.
-  The numpy-scalar conversion at the top of `update` (`x = x.item()`) is the identity on exact
-  values; its presence is emitted as the flag `updateConvertsNumpy`.
+  Numpy scalars: `if <x is a numpy scalar or a 0-d array>: A else: B` (any and / or / not combination of
+  isinstance(x, np.generic | np.ndarray | a tuple of them), `x.ndim == 0`, `np.ndim(x) == 0` that is true exactly
+  for numpy scalars and 0-d arrays and cannot raise) is executed on both paths — on A `x.item()` is the same
+  exact value, now a Python number; on B `x` is known to be a Python number — and translated only if both paths
+  do the same.  A parameter of `update` that reaches arithmetic, an attribute or a list before such a conversion
+  makes the emitted flag `updateConvertsNumpy` false (the sums would be computed in a narrow numpy type).
+  Static helpers (`Result._x(…)` / `self._x(…)` of a @staticmethod) see neither `self` nor the caller's names.
 """
 import ast
 import copy
@@ -75,11 +80,20 @@ NUMERIC = ('num', 'nat', 'lit')
 class V:
     """a symbolic value: type tag + Lean term (or a Python-side payload for concrete values)"""
 
-    def __init__(self, ty, tx=None, py=None):
+    def __init__(self, ty, tx=None, py=None, raw=False):
         self.ty, self.tx, self.py = ty, tx, py
+        self.raw = raw        # a parameter as given by the caller: it may still be a numpy scalar / 0-d array
 
     def key(self):
-        return (self.ty, self.tx, repr(self.py) if self.ty in ('lit', 'tyc', 'none', 'boolc', 'str') else id(self.py))
+        if self.ty in ('lit', 'tyc', 'none', 'boolc', 'str'):
+            return (self.ty, self.tx, repr(self.py), self.raw)
+        if self.ty == 'func':
+            return (self.ty, id(self.py[0]), self.py[1].var if isinstance(self.py[1], Obj) else self.py[1], self.py[2])
+        if self.ty == 'dict':
+            return (self.ty, tuple(sorted((k, v.key()) for k, v in self.py.items())))
+        if self.ty == 'obj':
+            return (self.ty, self.py.var)
+        return (self.ty, self.tx, self.raw)
 
 
 class Obj:
@@ -130,13 +144,63 @@ def paren(t):
     return '(%s)' % t
 
 
+class _NotNp(Exception):
+    pass
+
+
+def _np_eval(e, x, kind):
+    """truth value of a test built from isinstance(x, np.generic | np.ndarray | tuple of them), `x.ndim == 0`,
+    `np.ndim(x) == 0`, and / or / not, for x a Python number / None ('py'), a numpy scalar ('generic'), a 0-d array
+    ('arr0'); raises _NotNp for anything else and for a test that would raise (x.ndim of a Python number)"""
+    if isinstance(e, ast.BoolOp):
+        isand = isinstance(e.op, ast.And)
+        for v in e.values:                      # short circuit, left to right
+            r = _np_eval(v, x, kind)
+            if r != isand:
+                return r
+        return isand
+    if isinstance(e, ast.UnaryOp) and isinstance(e.op, ast.Not):
+        return not _np_eval(e.operand, x, kind)
+    if isinstance(e, ast.Call) and ast.unparse(e.func) == 'isinstance' and len(e.args) == 2 and not e.keywords \
+            and isinstance(e.args[0], ast.Name) and e.args[0].id == x:
+        ts = e.args[1].elts if isinstance(e.args[1], ast.Tuple) else [e.args[1]]
+        names = [ast.unparse(t) for t in ts]
+        if not names or any(n not in ('np.generic', 'np.ndarray') for n in names):
+            raise _NotNp()
+        return (kind == 'generic' and 'np.generic' in names) or (kind == 'arr0' and 'np.ndarray' in names)
+    if isinstance(e, ast.Compare) and len(e.ops) == 1 and isinstance(e.ops[0], ast.Eq) \
+            and isinstance(e.comparators[0], ast.Constant) and e.comparators[0].value == 0 \
+            and not isinstance(e.comparators[0].value, bool):
+        l = ast.unparse(e.left)
+        if l == '%s.ndim' % x:
+            if kind == 'py':
+                raise _NotNp()                  # AttributeError on a Python number
+            return True
+        if l == 'np.ndim(%s)' % x:
+            return True
+    raise _NotNp()
+
+
+def np_scalar_test(e):
+    """the variable x if `e` is true exactly when x is a numpy scalar or a 0-d array (and never raises)"""
+    names = {n.id for n in ast.walk(e) if isinstance(n, ast.Name)} - {'isinstance', 'np'}
+    if len(names) != 1:
+        return None
+    x = names.pop()
+    try:
+        ok = (_np_eval(e, x, 'py') is False and _np_eval(e, x, 'generic') is True and _np_eval(e, x, 'arr0') is True)
+    except _NotNp:
+        return None
+    return x if ok else None
+
+
 class Exec:
     def __init__(self, cls, codes):
         self.cls = cls
         self.codes = codes          # 'SUMTYPE' -> int
         self.stack = []
         self.counter = 0
-        self.converted = set()
+        self.raw_used = set()      # parameters used in arithmetic / stored before the numpy-scalar conversion
 
     # ------------------------------------------------------------------ class members
     def member(self, name):
@@ -151,7 +215,7 @@ class Exec:
         found = self.member(name)
         if found is None:
             return None
-        if len(found) != 1 or found[0].decorator_list:
+        if len(found) != 1 or [ast.unparse(d) for d in found[0].decorator_list] not in ([], ['staticmethod']):
             fail('method %s is decorated / overloaded' % name)
         return found[0]
 
@@ -172,6 +236,8 @@ class Exec:
 
     # ------------------------------------------------------------------ numbers
     def as_num(self, v, node=None):
+        if v.raw:
+            self.raw_used.add(v.tx)
         if v.ty == 'num':
             return v.tx
         if v.ty == 'nat':
@@ -237,6 +303,11 @@ class Exec:
         base = self.eval(e.value, st, guards)
         if base.ty == 'cls' and e.attr in self.codes:
             return V('tyc', py=self.codes[e.attr])
+        if base.ty == 'cls' and self.member(e.attr) is not None:
+            m = self.method(e.attr)
+            if not m.decorator_list:
+                fail('instance method called through the class: %s' % ast.unparse(e), e)
+            return V('func', py=(m, None, 'static'))
         if base.ty == 'str' and e.attr == 'format':
             return V('strfn')
         if base.ty != 'obj':
@@ -258,7 +329,10 @@ class Exec:
         if p is not None:
             return self.call_value(p, obj, [], {}, st, guards, e)
         if self.method(e.attr) is not None:
-            return V('func', py=(self.method(e.attr), obj, None))
+            m = self.method(e.attr)
+            if m.decorator_list:                 # a static helper called through an instance
+                return V('func', py=(m, None, 'static'))
+            return V('func', py=(m, obj, None))
         fail('unknown attribute %s' % ast.unparse(e), e)
 
     # ------------------------------------------------------------------ expressions
@@ -369,6 +443,12 @@ class Exec:
 
     def eval_call(self, e, st, guards):
         f = e.func
+        if isinstance(f, ast.Attribute) and f.attr == 'item' and not e.args and not e.keywords:
+            base = self.eval(f.value, st, guards)
+            if base.ty in ('num', 'optnum', 'none') and st.facts.get('np:%s' % base.tx) is True:
+                # the equivalent Python number: the same exact value
+                return V(base.ty, base.tx, base.py, raw=False)
+            fail('x.item() outside `if <x is a numpy scalar / 0-d array>`', e)
         if isinstance(f, ast.Name) and f.id not in st.env:
             if f.id == 'cast' and len(e.args) == 2 and not e.keywords:
                 return self.eval(e.args[1], st, guards)
@@ -382,6 +462,8 @@ class Exec:
                 if v.ty == 'lit':
                     return v
                 if v.ty == 'num' and st.facts.get('%s.den = 1' % paren(v.tx)) is True:
+                    if v.raw:
+                        self.raw_used.add(v.tx)
                     return V('int', '%s.num' % paren(v.tx))
                 fail('int(x) is only translated after `assert isinstance(x, (int, np.integer))`', e)
             fail('unsupported call %s' % ast.unparse(e)[:60], e)
@@ -419,6 +501,8 @@ class Exec:
             new.env = {}
             new.objs = {params[0]: obj}
             params = params[1:]
+        elif depth == 'static':
+            new.env, new.objs = {}, {}          # a static method sees neither `self` nor the caller's names
         elif depth is not None and depth < len(st.frames):
             # defined in an enclosing (suspended) call: its names, not the caller's
             new.env, new.objs = dict(st.frames[depth][0]), dict(st.frames[depth][1])
@@ -454,7 +538,7 @@ class Exec:
 
     def call_tree(self, fn, obj, args, kw, st, node, depth=None):
         """execute the body of `fn`; leaves are raise / return"""
-        if fn.decorator_list and [ast.unparse(d) for d in fn.decorator_list] != ['property']:
+        if fn.decorator_list and [ast.unparse(d) for d in fn.decorator_list] not in (['property'], ['staticmethod']):
             fail('%s is decorated' % fn.name, node)
         if any(f is fn for f in self.stack) or len(self.stack) > 6:
             fail('recursive / too deeply nested call of %s' % fn.name, node)
@@ -666,7 +750,7 @@ class Exec:
             s_none, s_some = st.fork(), st.fork()
             self.refine_opt(s_none, v, V('none'))
             var = self.fresh('t')
-            self.refine_opt(s_some, v, V('num', var))
+            self.refine_opt(s_some, v, V('num', var, raw=v.raw))
             tn = (on_true if pos else on_false)(s_none)
             ts = (on_false if pos else on_true)(s_some)
             return Node('opt', tn, ts, tx=v.tx, var=var)
@@ -686,23 +770,55 @@ class Exec:
         if not stmts:
             return Leaf('fall', st)
         s, rest = stmts[0], stmts[1:]
+        if isinstance(s, ast.If):
+            x = np_scalar_test(s.test)
+            if x is not None and x in st.env and st.env[x].ty in ('num', 'optnum', 'none'):
+                # `if <x is a numpy scalar or a 0-d array>: A else: B`.  The model's numbers are exact values, a
+                # numpy scalar and the Python number `x.item()` are the same value: both paths (A, where x.item()
+                # is that value; B, where x is known to be a Python number) must do the same, then either is taken.
+                g = []
+                v = self.eval(ast.Name(id=x, ctx=ast.Load()), st, g)
+                sa, sb = st.fork(), st.fork()
+                sa.facts['np:%s' % v.tx] = True
+                self.mark_converted(sb, v)
+                n0 = self.counter
+                ta = self.block(s.body + rest, sa)
+                n1, self.counter = self.counter, n0
+                tb = self.block(s.orelse + rest, sb)
+                if n1 != self.counter or not self.same_tree(ta, tb):
+                    fail('the numpy-scalar test on %s changes more than the representation of the number' % x, s)
+                return tb
         return self.then(self.stmt(s, st), lambda st2: self.block(rest, st2))
 
-    def is_numpy_conversion(self, s, st):
-        """`if isinstance(x, np.generic) or (isinstance(x, np.ndarray) and x.ndim == 0): x = x.item()`"""
-        if not (isinstance(s, ast.If) and not s.orelse and len(s.body) == 1 and isinstance(s.body[0], ast.Assign)
-                and len(s.body[0].targets) == 1 and isinstance(s.body[0].targets[0], ast.Name)):
-            return None
-        x = s.body[0].targets[0].id
-        if ast.unparse(s.body[0].value) != '%s.item()' % x:
-            return None
-        want = ('isinstance({0}, np.generic) or (isinstance({0}, np.ndarray) and {0}.ndim == 0)'.format(x),
-                'isinstance({0}, (np.generic, np.ndarray)) and np.ndim({0}) == 0'.format(x))
-        if ast.unparse(s.test) not in want:
-            return None
-        if x not in st.env or st.env[x].ty not in ('num', 'optnum', 'none'):
-            return None
-        return x
+    @staticmethod
+    def mark_converted(st, v):
+        """`v` is known to be a Python number (not a numpy scalar / 0-d array)"""
+        for k, e in list(st.env.items()):
+            if e.ty == v.ty and e.tx == v.tx and e.raw:
+                st.env[k] = V(e.ty, e.tx, e.py, raw=False)
+        for k, e in list(st.facts.items()):
+            if k.startswith('opt:') and isinstance(e, V) and e.ty == v.ty and e.tx == v.tx and e.raw:
+                st.facts[k] = V(e.ty, e.tx, e.py, raw=False)
+
+    def same_tree(self, a, b):
+        if isinstance(a, Leaf) != isinstance(b, Leaf):
+            return False
+        if isinstance(a, Leaf):
+            va = a.val.key() if isinstance(a.val, V) else a.val
+            vb = b.val.key() if isinstance(b.val, V) else b.val
+            if a.kind != b.kind or va != vb or self.store_text(a.st) != self.store_text(b.st):
+                return False
+            if a.kind == 'fall':
+                ea = {k: v.key() for k, v in a.st.env.items()}
+                eb = {k: v.key() for k, v in b.st.env.items()}
+                return ea == eb
+            return True
+        if a.kind != b.kind:
+            return False
+        for f in ('cond', 'tx', 'var', 'len', 'idx'):
+            if getattr(a, f, None) != getattr(b, f, None):
+                return False
+        return self.same_tree(a.a, b.a) and self.same_tree(a.b, b.b)
 
     def stmt(self, s, st):
         st = st.fork()
@@ -715,10 +831,6 @@ class Exec:
             return Leaf('fall', st)
         if isinstance(s, (ast.Global, ast.Nonlocal)):
             fail('global / nonlocal', s)
-        x = self.is_numpy_conversion(s, st)
-        if x is not None:
-            self.converted.add((self.stack[-1].name if self.stack else '', x, st.env[x].tx))
-            return Leaf('fall', st)
         if isinstance(s, ast.If):
             return self.stmt_if(s, st)
         if isinstance(s, ast.Assert):
@@ -1019,7 +1131,7 @@ def run_function(cls, codes, name, ty, params, other=False):
 def gen_update(cls, codes):
     arms, conv = [], []
     for pyname, ty in TYPES:
-        ex, tree, st0 = run_function(cls, codes, 'update', ty, [V('num', 'o.v'), V('optnum', 'o.t')])
+        ex, tree, st0 = run_function(cls, codes, 'update', ty, [V('num', 'o.v', raw=True), V('optnum', 'o.t', raw=True)])
         init = st0.store
 
         def leaf(l):
@@ -1027,12 +1139,11 @@ def gen_update(cls, codes):
                 fail('update returns a value')
             return '(%s, %s)' % (record('r', l.st, init), 'some .%s' % l.val if l.kind == 'raise' else 'none')
         arms.append('  | .%s =>\n%s' % (ty, emit(tree, 2, leaf)))
-        got = {tx for (_, _, tx) in ex.converted}
-        conv.append({'o.v', 'o.t'} <= got)
+        conv.append(not ex.raw_used)
     text = ('/-- `Result.update(value, total)`: the object afterwards and the exception raised, if any -/\n'
             'def update (r : Res) (o : Obs) : Res × Option PyErr :=\n  match r.ty with\n' + '\n'.join(arms) + '\n')
-    text += ('\n/-- `update` converts numpy scalars / 0-d arrays given as `value` and `total` to Python numbers\n'
-             '    before anything else (`x = x.item()`), so the sums are not computed in a narrow numpy type -/\n'
+    text += ('\n/-- `value` and `total` are converted to Python numbers (`x.item()` for numpy scalars / 0-d arrays)\n'
+             '    before they reach arithmetic, an attribute or a list: no sum is computed in a narrow numpy type -/\n'
              'def updateConvertsNumpy : Bool := %s\n' % ('true' if all(conv) else 'false'))
     return text
 
